@@ -137,7 +137,10 @@ Proof.
   pose proof (phase1_refines _ _ _ _ _ P1) as R1.
   pose proof (phase1_sound _ _ _ _ _ P1) as (Hn & Hr & W & gs & _ & _ & _ & C & W1).
   destruct (Z.to_nat n <=? List.length p1)%nat eqn:L.
-  - apply rects_eqb_eq in H. subst out. apply Nat.leb_le in L. splits; auto.
+  - apply perm_rects_sound in H. apply Nat.leb_le in L. splits; auto.
+    + rewrite <- (Permutation_length H). exact L.
+    + eapply Permutation_Forall; eauto.
+    + eapply refines_perm; eauto.
   - destruct (phase2_sound p1 out r (Z.to_nat n) W1 H) as (L2 & C2 & gs2 & P2 & _ & T2).
     splits; auto. eapply refines_compose; [exact R1|]. exists gs2. split; auto.
 Qed.
@@ -151,7 +154,7 @@ Proof.
   pose proof (phase1_sound _ _ _ _ _ P1) as (_ & _ & _ & gs & _ & _ & _ & C & W1).
   pose proof (phase1_length _ _ _ _ _ P1) as L1.
   destruct (Z.to_nat n <=? List.length p1)%nat eqn:L.
-  - exists p1. split; [reflexivity|]. apply rects_eqb_eq. reflexivity.
+  - exists p1. split; [reflexivity|]. apply perm_rects_refl.
   - apply phase2_greedy_ok; auto. intro E. subst p1. destruct rs; [congruence|]. cbn in L1. lia.
 Qed.
 
@@ -195,10 +198,11 @@ Proof.
   { unfold split_rectangles_ok.
     destruct (phase1 (Phase1.phase1_fuel (refinable d)) (refinable d) r n) as [p1| |]; try discriminate.
     destruct (Z.to_nat n <=? List.length p1)%nat eqn:L; [|left; assumption].
-    right. exists p1. split; [apply rects_eqb_eq; reflexivity|].
+    right. exists p1. split; [apply perm_rects_refl|].
     match goal with H : (_ && _) = true |- _ => apply andb_true_iff in H; destruct H as [E1 E2] end.
-    apply rects_eqb_eq in E1, E2. unfold refinable. rewrite E1, E2. cbn [spec ground repartition].
-    apply Permutation_sym. apply filter_partition_perm. }
+    apply perm_rects_sound in E1, E2. unfold refinable. cbn [spec ground repartition] in E1, E2.
+    eapply Permutation_trans; [apply Permutation_sym; apply (filter_partition_perm is_ground)|].
+    apply Permutation_sym. apply Permutation_app; assumption. }
   destruct S as [S|(p1 & S & P)].
   - apply split_rectangles_sound in S. destruct S as (Hn & Hr & _ & L & C & R). splits; auto.
   - apply split_rectangles_sound in S. destruct S as (Hn & Hr & _ & L & C & R). splits; auto.
